@@ -76,10 +76,22 @@ def union_family(fi, e, at):
         'set()', 'frozenset()')]
     loops = [l for l in ast.walk(fi.node) if isinstance(l, ast.For) and any(
         isinstance(x, ast.Name) and x.id == acc for b in l.body for x in ast.walk(b))]
+    def _accumulates(st):
+      return (isinstance(st, ast.AugAssign) and isinstance(st.op, ast.BitOr) and isinstance(
+          st.target, ast.Name) and st.target.id == acc) or (
+              isinstance(st, ast.Expr) and isinstance(st.value, ast.Call) and isinstance(
+                  st.value.func, ast.Attribute) and st.value.func.attr == 'update' and
+              core.norm(st.value.func.value) == acc)
     if len(inits) == 1 and len(loops) == 1 and isinstance(loops[0].target, ast.Name) \
-        and len(loops[0].body) == 1 and not loops[0].orelse:
+        and not loops[0].orelse and sum(1 for st in loops[0].body if _accumulates(st)) == 1 \
+        and not any(isinstance(x, (ast.Break, ast.Continue, ast.Return, ast.Raise))
+                    for st in loops[0].body[:[i for i, st in enumerate(loops[0].body)
+                                             if _accumulates(st)][0]]
+                    for x in ast.walk(st)):
+      # (the accumulating statement is a direct, unconditional statement of the
+      # loop body; nothing before it can leave the iteration)
       lp = loops[0]
-      b = lp.body[0]
+      b = [st for st in lp.body if _accumulates(st)][0]
       val = None
       if isinstance(b, ast.AugAssign) and isinstance(b.op, ast.BitOr) and isinstance(
           b.target, ast.Name) and b.target.id == acc:
